@@ -548,6 +548,10 @@ where
         }
         self.metrics.record_execution_attempt();
 
+        // An error is only definitive when the whole attempt ran on top of the committed prefix.
+        // An attempt that started speculatively may have read state that a predecessor changed
+        // before it committed, so it must be repeated at the commit head before it can abort.
+        let started_at_commit_head = self.scheduler_ctx.committed_idx() == txid;
         let tx_env = self.txs[txid].clone();
         let IncarnationExecution { result, accesses } =
             executor.execute_incarnation(tx_version.clone(), tx_env);
@@ -653,7 +657,7 @@ where
                     self.tx_dependency.add(txid, self.latest_unfinalized_blocker(&blocking_txs));
                 } else {
                     self.metrics.record_evm_error_conflict();
-                    if self.scheduler_ctx.committed_idx() == txid {
+                    if started_at_commit_head {
                         if invalid_transaction {
                             self.abort(AbortReason::FallbackSequential);
                         } else {
